@@ -118,10 +118,30 @@ def build():
                 raise ValueError("constraint not computable here")
             return {"g": array([1 - x[0] - x[1]])}
 
+    class Do(Discipline):
+        """Computes an observable (evaluated by a new-iteration listener of the database)."""
+
+        n = 0
+
+        def __init__(self):
+            super().__init__("Do")
+            self.io.input_grammar.update_from_names(["x"])
+            self.io.output_grammar.update_from_names(["o"])
+            self.io.input_grammar.defaults.update({"x": array([1.0, 1.0])})
+
+        def _run(self, input_data):
+            Do.n += 1
+            x = input_data["x"]
+            crash_point(x)
+            emit(ev="exec_end", p=pt(x))
+            return {"o": array([x[0] * x[1]])}
+
     ds = DesignSpace()
     ds.add_variable("x", 2, lower_bound=-4.0, upper_bound=4.0, value=array([1.0, 1.0]))
     if CFG.get("system") == "uncoupled":
         return [Df(), Dg()], ds, (Df, Dg)
+    if CFG.get("system") == "uncoupled_obs":
+        return [Df(), Dg(), Do()], ds, (Df, Dg)
     return [D1(), D2()], ds, (D1, D2)
 
 
@@ -151,6 +171,8 @@ def main():
 
     sc = Sc(discs, "f", ds, formulation_name=CFG.get("formulation", "MDF"))
     sc.add_constraint("g", constraint_type="ineq")
+    if CFG.get("system") == "uncoupled_obs":
+        sc.add_observable("o")
     problem = sc.formulation.optimization_problem
     db = problem.database
     seen = {}
@@ -177,7 +199,7 @@ def main():
     else:
         # a restart continues the iteration count of the loaded history (the counter set by load=True
         # is only effective when the driver is told not to reset it)
-        extra = {"reset_iteration_counters": False} if CFG.get("load") else {}
+        extra = {"reset_iteration_counters": False} if CFG.get("load") and not CFG.get("restart_default_reset") else {}
         sc.execute(algo_name=CFG.get("algo", "SLSQP"), max_iter=CFG.get("max_iter", 8),
                    normalize_design_space=bool(CFG.get("normalize", False)), **extra)
     emit(ev="done", db=[{"pt": pt(k.wrapped_array), "outs": sorted(v)} for k, v in db.items()])
